@@ -39,14 +39,13 @@ KERNELS = [
     ("pynapple/core/_jitted_functions.py", "jitunion_isets"),
     ("pynapple/core/_jitted_functions.py", "_jitfix_iset"),
     ("pynapple/process/_process_functions.py", "_jitcontinuous_perievent"),
+    ("pynapple/process/_process_functions.py", "_jitperievent_trigger_average"),
     ("pynapple/process/correlograms.py", "_cross_correlogram"),
     ("pynapple/process/spectrum.py", "_overlap_split"),
 ]
 
 # kernels whose source is hashed and listed, but which are outside Jit.Lang (N-d hankel arrays)
-UNTRANSLATED = [
-    ("pynapple/process/_process_functions.py", "_jitperievent_trigger_average"),
-]
+UNTRANSLATED = []
 
 STRING_TAGS = {"above": 0, "below": 1, "aboveequal": 2, "belowequal": 3}
 
@@ -371,6 +370,9 @@ class Kernel:
                 op = "Max" if f.id == "max" else "Min"
                 return f"EBin {op} ({self.expr(args[0])}) ({self.expr(args[1])})"
             raise Unsupported(f"call to {f.id}", node)
+        if isinstance(f, ast.Attribute) and f.attr == "sum" and self.is_arr(f.value) and not args \
+                and not node.keywords:
+            return f"ESumAll {coq_str(f.value.id)}"
         n = np_name(f)
         if n is not None:
             if n in ("ceil", "floor", "isnan") and len(args) == 1 and not node.keywords:
@@ -382,7 +384,13 @@ class Kernel:
                 op = "Max" if n == "maximum" else "Min"
                 return f"EBin {op} ({self.expr(args[0])}) ({self.expr(args[1])})"
             if n == "sum" and len(args) == 1 and not node.keywords:
+                if isinstance(args[0], ast.Name) and self.kinds.get(args[0].id) == "sc":
+                    return self.expr(args[0])      # np.sum of a collapsed row is the cell itself
                 return self.np_sum(args[0], node)
+            if n == "sum" and len(args) == 2 and not node.keywords and isinstance(args[1], ast.Constant) \
+                    and args[1].value == 0 and isinstance(args[0], ast.Subscript) \
+                    and self.is_arr(args[0].value, 1) and isinstance(args[0].slice, ast.Slice):
+                return self.np_sum(args[0], node)  # sum over axis 0 of a slice of rows (rows collapsed)
             if n == "any" and len(args) == 1:
                 return self.np_any(args[0], node)
             raise Unsupported(f"np.{n} in an expression", node)
@@ -495,6 +503,12 @@ class Kernel:
             if isinstance(e, ast.Starred):
                 if isinstance(e.value, ast.Name) and self.kinds.get(e.value.id) == "rowshape":
                     continue
+                v = e.value
+                if isinstance(v, ast.Subscript) and isinstance(v.value, ast.Attribute) and v.value.attr == "shape" \
+                        and self.is_arr(v.value.value) and isinstance(v.slice, ast.Slice) \
+                        and isinstance(v.slice.lower, ast.Constant) and v.slice.lower.value == 1 \
+                        and v.slice.upper is None and v.slice.step is None:
+                    continue
                 raise Unsupported("starred shape component", node)
             dims.append(e)
         return dims
@@ -557,6 +571,10 @@ class Kernel:
                     return [f"SArgsort {coq_str(x)} {coq_str(b)}"]
                 self.note_assign(x, ("arr", 1, self.kinds[b][2]))
                 return [f"SCumsum {coq_str(x)} {coq_str(b)}"]
+            if isinstance(v, ast.Call) and np_name(v.func) == "sum" and len(v.args) == 2 and not v.keywords \
+                    and self.is_arr(v.args[0], 2) and isinstance(v.args[1], ast.Constant) and v.args[1].value == 0:
+                self.note_assign(x, ("arr", 1, self.kinds[v.args[0].id][2]))
+                return [f"SColSums {coq_str(x)} {coq_str(v.args[0].id)}"]
             if isinstance(v, ast.Subscript) and self.is_arr(v.value):
                 b = v.value.id
                 sl = v.slice
@@ -611,12 +629,33 @@ class Kernel:
             return self.store(t, v, s, None)
         raise Unsupported(f"assignment target {type(t).__name__}", s)
 
+    def full_slice(self, n):
+        return isinstance(n, ast.Slice) and n.lower is None and n.upper is None and n.step is None
+
     def store(self, t, v, s, augop):
         a = self.arr_name(t.value, "store")
         dims = self.kinds[a][1]
         sl = t.slice
         if isinstance(sl, ast.Slice):
+            # a[0:-1] = a[1:]
+            def lit(n, val):
+                return (isinstance(n, ast.Constant) and n.value == val) or \
+                       (val < 0 and self.neg_literal(n) and n.operand.value == -val)
+            if augop is None and dims == 1 and sl.step is None and lit(sl.lower, 0) and lit(sl.upper, -1) \
+                    and isinstance(v, ast.Subscript) and isinstance(v.value, ast.Name) and v.value.id == a \
+                    and isinstance(v.slice, ast.Slice) and lit(v.slice.lower, 1) and v.slice.upper is None \
+                    and v.slice.step is None:
+                return [f"SShiftLeft {coq_str(a)}"]
             raise Unsupported("slice store", s)
+        if isinstance(sl, ast.Tuple) and dims == 2 and len(sl.elts) == 2 and self.full_slice(sl.elts[0]) \
+                and not isinstance(sl.elts[1], ast.Slice) and augop is not None:
+            # a[:, j] op= h * e   |   a[:, j] op= e
+            j = self.expr(sl.elts[1])
+            if isinstance(v, ast.BinOp) and isinstance(v.op, ast.Mult) and self.is_arr(v.left, 1):
+                h, e = f"(Some {coq_str(v.left.id)})", self.expr(v.right)
+            else:
+                h, e = "None", self.expr(v)
+            return [f"SColUpd {self.new_site()} {coq_str(a)} ({j}) {augop} {h} ({e})"]
         if isinstance(sl, ast.Tuple):
             if dims != 2 or len(sl.elts) != 2 or any(isinstance(e, ast.Slice) for e in sl.elts):
                 raise Unsupported("tuple subscript store", s)
@@ -643,6 +682,8 @@ class Kernel:
         if op is None:
             raise Unsupported(f"augmented operator {type(s.op).__name__}", s)
         t = s.target
+        if isinstance(t, ast.Name) and self.is_arr(t) and op == "Mul":
+            return [f"SArrScale {coq_str(t.id)} ({self.expr(s.value)})"]
         if isinstance(t, ast.Name):
             if self.kinds.get(t.id) != "sc":
                 raise Unsupported(f"augmented assignment to non-scalar {t.id}", s)
